@@ -77,7 +77,7 @@ class C12(Property):
     assumptions = ["std::collections::HashMap modelled as a finite map", "labels instantiated at usize"]
 
     def cases(self, tier, rng):
-        n = 3000 if tier == "quick" else 300000
+        n = 9000 if tier == "quick" else 300000
         lines = []
         for i in range(n):
             u = rng.randint(2, 8)
